@@ -250,31 +250,38 @@ func runPool(sc *PoolSc) *poolObs {
 }
 
 func judgePool(prop string, sc *PoolSc, obs *poolObs, fail string) Verdict {
-	if fail != "" {
+	// C12 states exactly-once, the Wait barrier, visibility and termination after Close;
+	// C08 (and C19's "size <= 0 means one worker") state the limit and its usability.
+	c12 := prop == "C12"
+	if fail != "" && (c12 || !goroutinesRemain(fail)) {
 		return bad(prop+":bubble", "%s", fail)
 	}
-	if obs.WaitEarly != "" {
-		return bad(prop+":wait-early", "%s", obs.WaitEarly)
+	if obs == nil {
+		return inconclusive("pool scenario produced no observation")
 	}
-	for t, c := range obs.Counts {
-		if c != 1 {
-			return bad(prop+":exactly-once", "task %d executed %d times (pool size %d, %d tasks)", t, c, sc.Size, len(obs.Counts))
+	if c12 {
+		if obs.WaitEarly != "" {
+			return bad(prop+":wait-early", "%s", obs.WaitEarly)
+		}
+		for t, c := range obs.Counts {
+			if c != 1 {
+				return bad(prop+":exactly-once", "task %d executed %d times (pool size %d, %d tasks)", t, c, sc.Size, len(obs.Counts))
+			}
+		}
+		if obs.VisibleFail != "" {
+			return bad(prop+":visibility", "%s", obs.VisibleFail)
+		}
+		if obs.LateLost != "" {
+			return bad(prop+":exactly-once-late", "%s", obs.LateLost)
+		}
+	} else {
+		if int(obs.MaxInflight) > sc.workers() {
+			return bad(prop+":limit", "%d tasks in flight at once on a pool of %d workers", obs.MaxInflight, sc.workers())
+		}
+		if obs.QPFail != "" {
+			return bad(prop+":usable", "%s", obs.QPFail)
 		}
 	}
-	if obs.VisibleFail != "" {
-		return bad(prop+":visibility", "%s", obs.VisibleFail)
-	}
-	if int(obs.MaxInflight) > sc.workers() {
-		return bad(prop+":limit", "%d tasks in flight at once on a pool of %d workers", obs.MaxInflight, sc.workers())
-	}
-	if obs.QPFail != "" {
-		return bad(prop+":usable", "%s", obs.QPFail)
-	}
-	if obs.LateLost != "" {
-		return bad(prop+":exactly-once-late", "%s", obs.LateLost)
-	}
-	// (no queue capacity is asserted: "blocks rather than drops" is decided by the exactly-once
-	// counters and by Wait; how many tasks fit before Submit blocks is an implementation detail)
 	subs := 0
 	for _, r := range sc.Rounds {
 		if len(r.Submitters) > subs {
